@@ -112,12 +112,8 @@ func c01GuardShare(p *chk.Prog, r *chk.Report) {
 		guard := g.GErrNil(true, "RECV.checkSharing(K, IP.String(), PORTS, SK)",
 			chk.H("K", isParam(f, "svcKey")), chk.H("IP", rangeVal(f, rs)), chk.H("PORTS", isParam(f, "ports")),
 			chk.H("SK", definedBy(g, "&key{sharing: A, backend: B}", chk.H("A", isParam(f, "sharingKey")), chk.H("B", isParam(f, "backendKey")))))
-		if o, w := g.LoopForall(rs, guard); o {
-			if g.AfterLoop(site, rs) {
-				ok = true
-			} else {
-				why = "a.assign is reachable without running the checkSharing loop to exhaustion"
-			}
+		if w := forallBefore(f, g, rs, guard, site); w == "" {
+			ok = true
 		} else {
 			why = w
 		}
